@@ -47,6 +47,8 @@ func newC06World(t *testing.T, transactional bool) *c06World {
 	tc.enableAuth("ra", "recauth")
 	tc.writePolicy("c06", c06Policy)
 	tc.mustOK(tc.req(logical.UpdateOperation, "auth/token/roles/r1", tc.root, map[string]any{"allowed_policies": "default,c06", "orphan": true, "token_period": "0"}), "role")
+	// a role whose tokens (and their leases) live under a path suffix
+	tc.mustOK(tc.req(logical.UpdateOperation, "auth/token/roles/r2", tc.root, map[string]any{"allowed_policies": "default,c06", "orphan": true, "path_suffix": "batch-jobs"}), "role with path suffix")
 	w := &c06World{t: t, tc: tc, hub: hub}
 	var r rr
 	w.parent, _, r = tc.createToken(tc.root, map[string]any{"policies": []string{"default", "c06"}, "ttl": "1h"})
@@ -96,7 +98,7 @@ func (w *c06World) fork() *c06World {
 	return &c06World{t: w.t, tc: n, hub: w.hub, parent: w.parent, limTok: w.limTok, batchTok: w.batchTok, ns1: w.ns1, nsTok: w.nsTok}
 }
 
-var c06Kinds = []string{"secret", "secret-batch-child", "secret-in-namespace", "secret-wrapped", "secret-uselimited", "login", "login-wrapped", "create", "create-role", "create-orphan", "create-wrapped"}
+var c06Kinds = []string{"secret", "secret-batch-child", "secret-in-namespace", "secret-wrapped", "secret-uselimited", "login", "login-wrapped", "create", "create-role", "create-role-path-suffix", "create-orphan", "create-wrapped"}
 
 func (w *c06World) request(kind string) rr { return w.requestCtx(kind, w.tc.ctx) }
 
@@ -126,6 +128,8 @@ func (w *c06World) requestCtx(kind string, base context.Context) rr {
 		return tc.do(&logical.Request{Operation: logical.UpdateOperation, Path: "auth/token/create", ClientToken: w.parent, Data: map[string]any{"ttl": "20m"}})
 	case "create-role":
 		return tc.do(&logical.Request{Operation: logical.UpdateOperation, Path: "auth/token/create/r1", ClientToken: w.parent, Data: map[string]any{"ttl": "20m", "policies": []string{"c06"}}})
+	case "create-role-path-suffix":
+		return tc.do(&logical.Request{Operation: logical.UpdateOperation, Path: "auth/token/create/r2", ClientToken: w.parent, Data: map[string]any{"ttl": "20m", "policies": []string{"c06"}}})
 	case "create-orphan":
 		return tc.do(&logical.Request{Operation: logical.UpdateOperation, Path: "auth/token/create-orphan", ClientToken: tc.root, Data: map[string]any{"ttl": "20m", "policies": []string{"c06"}}})
 	case "create-wrapped":
